@@ -86,7 +86,9 @@ class CanonState:
     def _join(self, a, b):
         out = {}
         for k in set(a) | set(b):
-            x, y = a.get(k, TOP), b.get(k, TOP)
+            # a table's _data not mentioned on a path keeps its invariant
+            dflt = INV if k.endswith('._data') else TOP
+            x, y = a.get(k, dflt), b.get(k, dflt)
             if x == y:
                 out[k] = x
             elif NONCANON in (x, y):
